@@ -309,7 +309,8 @@ impl DBM {
         let tx = self.get_mut_connection().transaction().unwrap();
         tx.execute(
             "INSERT INTO appointment_receipts (locator, tower_id, start_block, user_signature, tower_signature) 
-                VALUES (?1, ?2, ?3, ?4, ?5)",
+                VALUES (?1, ?2, ?3, ?4, ?5) 
+                ON CONFLICT (locator, tower_id) DO UPDATE SET start_block = ?3, user_signature = ?4, tower_signature = ?5",
             params![
                 locator.to_vec(),
                 tower_id.to_vec(),
@@ -573,7 +574,8 @@ impl DBM {
         let tx = self.get_mut_connection().transaction().unwrap();
         tx.execute(
             "INSERT INTO appointment_receipts (tower_id, locator, start_block, user_signature, tower_signature) 
-                VALUES (?1, ?2, ?3, ?4, ?5)",
+                VALUES (?1, ?2, ?3, ?4, ?5) 
+                ON CONFLICT (locator, tower_id) DO UPDATE SET start_block = ?3, user_signature = ?4, tower_signature = ?5",
             params![
                 tower_id.to_vec(),
                 proof.locator.to_vec(),
